@@ -57,7 +57,7 @@ int main(int argc, char **argv)
                 fputs(",\"sum2\":", f); put_dyadic(f, (double)a_real_sum2_((a_size)n, p, (a_size)c));
                 fputs(",\"mean\":", f); put_value(f, n ? (double)a_real_mean_((a_size)n, p, (a_size)c) : 0.0);
                 fputs(",\"dot\":", f); put_dyadic(f, (double)a_real_dot_((a_size)n, p, (a_size)c, q, (a_size)d));
-                fputs(",\"norm\":", f); put_dyadic(f, (double)a_real_norm_((a_size)n, p, (a_size)c));
+                fputs(",\"norm\":", f); put_value(f, (double)a_real_norm_((a_size)n, p, (a_size)c));
                 fputs(",\"scaled\":[", f);
                 int first = 1;
                 for (int sh = -1000; sh <= 1000; sh += 500)
@@ -66,16 +66,16 @@ int main(int argc, char **argv)
                     for (int i = 0; i < 24; ++i) { s[i] = (a_real)ldexp((double)p[i], e); }
                     double r = ldexp((double)a_real_norm_((a_size)n, s, (a_size)c), -e);
                     if (!first) { fputc(',', f); }
-                    put_dyadic(f, r);
+                    put_value(f, r);
                     first = 0;
                     if (c == 1)
                     {
                         fputc(',', f);
-                        put_dyadic(f, ldexp((double)a_real_norm((a_size)n, s), -e));
+                        put_value(f, ldexp((double)a_real_norm((a_size)n, s), -e));
                     }
                 }
-                fputs("],\"norm2\":", f); put_dyadic(f, n == 2 ? (double)a_real_norm2(p[0], p[c]) : 0.0);
-                fputs(",\"norm3\":", f); put_dyadic(f, n == 3 ? (double)a_real_norm3(p[0], p[c], p[2 * c]) : 0.0);
+                fputs("],\"norm2\":", f); put_value(f, n == 2 ? (double)a_real_norm2(p[0], p[c]) : 0.0);
+                fputs(",\"norm3\":", f); put_value(f, n == 3 ? (double)a_real_norm3(p[0], p[c], p[2 * c]) : 0.0);
                 if (c == 1 && d == 1)
                 {
                     /* the unstrided twins must agree with the strided ones at stride 1 */
